@@ -159,7 +159,8 @@ class ObjectTemplate(base.HyperValue, utils.Formattable):
         if (self._where
             and isinstance(value, base.HyperPrimitive)
             and hasattr(value, 'where')):
-          value = value.clone().rebind(where=self._where)
+          with symbolic.as_sealed(False):
+            value = value.clone().rebind(where=self._where)
         hyper_primitives.append((path, value))
       elif isinstance(value, symbolic.Object):
         for k, v in value.sym_items():
